@@ -878,6 +878,201 @@ theorem Target.signature (t : Target) (h : t.Clean) :
       count_colon_clean hl, clean_sectionWord.2, hl.2]
 
 
+/-! ### `_pair_property_accessors`: only the chosen getter keeps an inferred get-property -/
+
+/-- invariant of the inner loop relative to the methods' state `ms` before the property was visited:
+    methods stay where they are, and a get_property that was None and is set now was inferred -/
+structure AccInv (p : PropInfo) (ms : List (Method × Option Str × Option Str)) (st : AccSt) : Prop where
+  meth : ∀ (j : Nat) m sp gp, st.ms[j]? = some (m, sp, gp) → ∃ sp0 gp0, ms[j]? = some (m, sp0, gp0)
+  inf : ∀ (j : Nat) m sp g sp0, st.ms[j]? = some (m, sp, some g) → ms[j]? = some (m, sp0, none) →
+    j ∈ st.inferred ∧ g = p.name
+
+theorem accessorStep_inv {p : PropInfo} {setter : Option Str} {cands : List (Str × Nat)}
+    {ms : List (Method × Option Str × Option Str)} {st : AccSt} (i : Nat) (h : AccInv p ms st) :
+    AccInv p ms (accessorStep p setter cands st i) := by
+  unfold accessorStep
+  cases hi : st.ms[i]? with
+  | none => exact h
+  | some x =>
+    obtain ⟨mi, spi, gpi⟩ := x
+    have hlt : i < st.ms.length := (List.getElem?_eq_some_iff.mp hi).1
+    simp only
+    split
+    · constructor
+      · intro j m sp gp hj
+        by_cases hij : i = j
+        · subst hij
+          rw [List.getElem?_set_self hlt] at hj
+          cases hj
+          exact h.meth i mi spi gpi hi
+        · rw [List.getElem?_set_ne hij] at hj
+          exact h.meth j m sp gp hj
+      · intro j m sp g sp0 hj h0
+        by_cases hij : i = j
+        · subst hij
+          rw [List.getElem?_set_self hlt] at hj
+          cases hj
+          exact h.inf i _ spi g sp0 hi h0
+        · rw [List.getElem?_set_ne hij] at hj
+          exact h.inf j m sp g sp0 hj h0
+    · split
+      · constructor
+        · intro j m sp gp hj
+          by_cases hij : i = j
+          · subst hij
+            rw [List.getElem?_set_self hlt] at hj
+            cases hj
+            exact h.meth i mi spi gpi hi
+          · rw [List.getElem?_set_ne hij] at hj
+            exact h.meth j m sp gp hj
+        · intro j m sp g sp0 hj h0
+          by_cases hij : i = j
+          · subst hij
+            rw [List.getElem?_set_self hlt] at hj
+            cases hj
+            refine ⟨?_, rfl⟩
+            cases hg : gpi with
+            | none => simp
+            | some g0 =>
+              simp only [Option.isNone_some, Bool.false_eq_true, if_false]
+              rw [hg] at hi
+              exact (h.inf i _ spi g0 sp0 hi h0).1
+          · rw [List.getElem?_set_ne hij] at hj
+            have := h.inf j m sp g sp0 hj h0
+            refine ⟨?_, this.2⟩
+            show j ∈ (if gpi.isNone = true then st.inferred ++ [i] else st.inferred)
+            cases gpi with
+            | none => simp [this.1]
+            | some _ => simpa using this.1
+      · exact h
+
+theorem accessorFold_inv {p : PropInfo} {setter : Option Str} {cands : List (Str × Nat)}
+    {ms : List (Method × Option Str × Option Str)} (is : List Nat) (st : AccSt) (h : AccInv p ms st) :
+    AccInv p ms (is.foldl (accessorStep p setter cands) st) := by
+  induction is generalizing st with
+  | nil => exact h
+  | cons i is ih => exact ih _ (accessorStep_inv i h)
+
+/-- one visit of the `for method in inferred_getters` loop -/
+def dropOne (getter : Option Str) (ms : List (Method × Option Str × Option Str)) (i : Nat) :
+    List (Method × Option Str × Option Str) :=
+  match ms[i]? with
+  | some (m, sp, _) => if getter = some m.name then ms else ms.set i (m, sp, none)
+  | none => ms
+
+theorem dropUnchosen_eq (getter : Option Str) (ms : List (Method × Option Str × Option Str)) (inferred : List Nat) :
+    dropUnchosen getter ms inferred = inferred.foldl (dropOne getter) ms := rfl
+
+theorem dropOne_ne {getter : Option Str} {ms : List (Method × Option Str × Option Str)} {i j : Nat} (h : i ≠ j) :
+    (dropOne getter ms i)[j]? = ms[j]? := by
+  unfold dropOne
+  split
+  · split
+    · rfl
+    · exact List.getElem?_set_ne h
+  · rfl
+
+theorem dropOne_keep {getter : Option Str} {ms : List (Method × Option Str × Option Str)} {i j : Nat}
+    {m : Method} {sp gp : Option Str} (h : (dropOne getter ms i)[j]? = some (m, sp, gp)) :
+    ∃ gp0, ms[j]? = some (m, sp, gp0) ∧ (gp = gp0 ∨ gp = none) := by
+  unfold dropOne at h
+  split at h
+  · rename_i m' sp' gp' hi
+    split at h
+    · exact ⟨gp, h, Or.inl rfl⟩
+    · by_cases hij : i = j
+      · subst hij
+        rw [List.getElem?_set_self (List.getElem?_eq_some_iff.mp hi).1] at h
+        cases h
+        exact ⟨gp', hi, Or.inr rfl⟩
+      · rw [List.getElem?_set_ne hij] at h
+        exact ⟨gp, h, Or.inl rfl⟩
+  · exact ⟨gp, h, Or.inl rfl⟩
+
+theorem dropOne_self {getter : Option Str} {ms : List (Method × Option Str × Option Str)} {i : Nat}
+    {m : Method} {sp : Option Str} {g : Str} (h : (dropOne getter ms i)[i]? = some (m, sp, some g)) :
+    getter = some m.name := by
+  unfold dropOne at h
+  split at h
+  · rename_i m' sp' gp' hi
+    split at h
+    · rename_i hg
+      rw [hi] at h
+      cases h
+      exact hg
+    · rw [List.getElem?_set_self (List.getElem?_eq_some_iff.mp hi).1] at h
+      cases h
+  · rename_i hi
+    rw [hi] at h
+    cases h
+
+theorem dropFold_spec (getter : Option Str) (inferred : List Nat) (ms : List (Method × Option Str × Option Str)) :
+    (∀ j : Nat, j ∉ inferred → (inferred.foldl (dropOne getter) ms)[j]? = ms[j]?)
+    ∧ (∀ (j : Nat) m sp gp, (inferred.foldl (dropOne getter) ms)[j]? = some (m, sp, gp) →
+        ∃ gp0, ms[j]? = some (m, sp, gp0) ∧ (gp = gp0 ∨ gp = none))
+    ∧ (∀ j ∈ inferred, ∀ m sp g, (inferred.foldl (dropOne getter) ms)[j]? = some (m, sp, some g) →
+        getter = some m.name) := by
+  induction inferred generalizing ms with
+  | nil =>
+    refine ⟨fun _ _ => rfl, ?_, ?_⟩
+    · intro j m sp gp h; exact ⟨gp, h, Or.inl rfl⟩
+    · intro j hj; cases hj
+  | cons i rest ih =>
+    obtain ⟨ih1, ih2, ih3⟩ := ih (dropOne getter ms i)
+    simp only [List.foldl_cons]
+    refine ⟨?_, ?_, ?_⟩
+    · intro j hj
+      simp only [List.mem_cons, not_or] at hj
+      rw [ih1 j hj.2]
+      exact dropOne_ne (fun e => hj.1 e.symm)
+    · intro j m sp gp h
+      obtain ⟨gp1, h1, hor⟩ := ih2 j m sp gp h
+      obtain ⟨gp0, h0, hor0⟩ := dropOne_keep h1
+      refine ⟨gp0, h0, ?_⟩
+      rcases hor with rfl | rfl
+      · exact hor0
+      · exact Or.inr rfl
+    · intro j hj m sp g h
+      by_cases hr : j ∈ rest
+      · exact ih3 j hr m sp g h
+      · have : j = i := by
+          rcases List.mem_cons.mp hj with e | e
+          · exact e
+          · exact absurd e hr
+        subst this
+        rw [ih1 j hr] at h
+        exact dropOne_self h
+
+theorem pairOne_spec (p : PropInfo) (pe : Option Str × Option Str) (ms : List (Method × Option Str × Option Str)) :
+    ∃ st : AccSt, AccInv p ms st ∧ pairOne p pe ms = (st.prop, dropUnchosen st.prop.2 st.ms st.inferred) := by
+  refine ⟨_, accessorFold_inv (List.range ms.length) { prop := pe, ms := ms } ⟨?_, ?_⟩, rfl⟩
+  · intro j m sp gp h
+    exact ⟨sp, gp, h⟩
+  · intro j m sp g sp0 h h0
+    simp only at h
+    rw [h] at h0
+    cases h0
+
+theorem pairOne_inferred {p : PropInfo} {pe : Option Str × Option Str} {ms : List (Method × Option Str × Option Str)}
+    {i : Nat} {m m' : Method} {sp sp' : Option Str} {g : Str}
+    (h0 : ms[i]? = some (m, sp, none)) (h1 : (pairOne p pe ms).2[i]? = some (m', sp', some g)) :
+    m' = m ∧ g = p.name ∧ (pairOne p pe ms).1.2 = some m.name := by
+  obtain ⟨st, inv, e⟩ := pairOne_spec p pe ms
+  rw [e] at h1 ⊢
+  simp only [dropUnchosen_eq] at h1 ⊢
+  obtain ⟨d1, d2, d3⟩ := dropFold_spec st.prop.2 st.inferred st.ms
+  obtain ⟨gp0, hst, hor⟩ := d2 i m' sp' (some g) h1
+  have hgp : gp0 = some g := by
+    rcases hor with h | h
+    · exact h.symm
+    · cases h
+  subst hgp
+  obtain ⟨sp0, gp0, hm⟩ := inv.meth i m' sp' (some g) hst
+  rw [h0] at hm
+  cases hm
+  obtain ⟨hmem, hg⟩ := inv.inf i m sp' g sp hst h0
+  exact ⟨rfl, hg, d3 i hmem m sp' g h1⟩
+
 /-- three functions named like their symbols (used by the rename-to witnesses) -/
 def abcNames : Str → Option Str := fun s => if s ∈ ["a".toList, "b".toList, "c".toList] then some s else none
 
